@@ -206,23 +206,24 @@ Definition remove_unused_volumes (vols : vtable) : vtable :=
          vols.
 
 (* ---- tail of convertMCNPGeometry -------------------------------------------- *)
-Definition prune (skip_dedup : bool) (surfs : stable) (vols : vtable) (u0 u1 : Z) : res (stable * vtable) :=
+Definition prune (skip_dedup : bool) (surfs : stable) (vols : vtable) (u0 u1 : Z)
+  : res (stable * vtable * option (list (Z * Z))) :=
   let step1 :=
-    if skip_dedup then Ok (surfs, vols)
+    if skip_dedup then Ok (surfs, vols, None)
     else match remove_duplicate_surfaces surfs with
          | Err e => Err e
          | Ok (news, ren) =>
              match renumber_surfaces vols ren with
              | Err e => Err e
-             | Ok vols' => Ok (news, vols')
+             | Ok vols' => Ok (news, vols', Some ren)
              end
          end in
   match step1 with
   | Err e => Err e
-  | Ok (surfs1, vols1) =>
+  | Ok (surfs1, vols1, ren) =>
       match remove_empty_volumes vols1 u0 u1 with
       | None => Err EFuel
-      | Some vols2 => Ok (surfs1, remove_unused_volumes vols2)
+      | Some vols2 => Ok (surfs1, remove_unused_volumes vols2, ren)
       end
   end.
 
@@ -257,7 +258,8 @@ Record file := mkFile {
    leaving what was written so far on disk *)
 Inductive outcome :=
 | Complete (f : file)
-| Died (header_written : bool) (surfs_written : list surf_line) (e : err).
+| Died (header_written : bool) (surfs_written : list surf_line) (e : err)
+| Raised (f : file) (e : err).   (* f was written, then writeT4BoundCond raised before writing its block *)
 
 (* VolumeT4.__str__ as an abstract line *)
 Definition counted (l : list Z) : option (N * list Z) :=
@@ -388,10 +390,36 @@ Definition construct_geomcomp (vols : vtable) (cells : ctable) : res (list gc_li
 Definition bc_kind (c : string) : string :=
   if String.eqb c "*" then "REFLECTION" else if String.eqb c "+" then "COSINUS" else "?".
 
-Definition write_bc (bcs : list (Z * string)) : option (N * list (string * Z)) :=
+(* writeT4BoundCond (after the fix "write boundary conditions only for surfaces
+   present in the written geometry"): flagged numbers go through the
+   de-duplication renumbering (renumbering.get(k, k)), those that are not
+   written are dropped, the same surface with two kinds is a ValueError *)
+Definition bc_target (ren : option (list (Z * Z))) (k : Z) : Z :=
+  match ren with
+  | None => k
+  | Some m => match lookup k m with Some t => t | None => k end
+  end.
+
+Fixpoint bc_entries (ren : option (list (Z * Z))) (used : list Z) (bcs : list (Z * string))
+         (acc : list (Z * string)) : res (list (Z * string)) :=
   match bcs with
-  | [] => None
-  | _ => Some (N.of_nat (List.length bcs), map (fun p => (bc_kind (snd p), fst p)) bcs)
+  | [] => Ok acc
+  | (k, c) :: r =>
+      let new_k := bc_target ren k in
+      if zmem new_k used then
+        match lookup new_k acc with
+        | Some kind0 => if String.eqb kind0 (bc_kind c) then bc_entries ren used r acc else Err EValue
+        | None => bc_entries ren used r (acc ++ [(new_k, bc_kind c)])
+        end
+      else bc_entries ren used r acc
+  end.
+
+Definition write_bc (ren : option (list (Z * Z))) (used : list Z) (bcs : list (Z * string))
+  : res (option (N * list (string * Z))) :=
+  match bc_entries ren used bcs [] with
+  | Err e => Err e
+  | Ok [] => Ok None
+  | Ok l => Ok (Some (N.of_nat (List.length l), map (fun p => (snd p, fst p)) l))
   end.
 
 (* ---- the whole writer -------------------------------------------------------------- *)
@@ -402,7 +430,7 @@ Record wstate := mkW {
   w_bcs : list (Z * string);
   w_skip_comp : bool; w_skip_geomcomp : bool; w_skip_bc : bool }.
 
-Definition write_file (w : wstate) : outcome :=
+Definition write_file (ren : option (list (Z * Z))) (w : wstate) : outcome :=
   match used_surfaces (w_vols w) with
   | [] => Died false [] EValue                         (* max(surf_used) *)
   | used =>
@@ -420,7 +448,11 @@ Definition write_file (w : wstate) : outcome :=
                           | Ok g => Ok (Some g) | Err e => Err e end) with
               | Err e => Died true sl e                 (* KeyError in GEOMCOMP: not printed faithfully, see notes *)
               | Ok gc =>
-                  Complete (mkFile sl vl comps gc (if w_skip_bc w then None else write_bc (w_bcs w)))
+                  match (if w_skip_bc w then Ok None
+                         else write_bc ren (used_surfaces (w_vols w)) (w_bcs w)) with
+                  | Ok bc => Complete (mkFile sl vl comps gc bc)
+                  | Err e => Raised (mkFile sl vl comps gc None) e
+                  end
               end
           end
       end
@@ -430,8 +462,8 @@ Definition write_file (w : wstate) : outcome :=
 Definition convert_tail (skip_dedup : bool) (u0 u1 : Z) (w : wstate) : res outcome :=
   match prune skip_dedup (w_surfs w) (w_vols w) u0 u1 with
   | Err e => Err e                                      (* no file is opened *)
-  | Ok (surfs, vols) =>
-      Ok (write_file (mkW surfs vols (w_skipped w) (w_cells w) (w_mats w) (w_rescaled w) (w_bcs w)
+  | Ok (surfs, vols, ren) =>
+      Ok (write_file ren (mkW surfs vols (w_skipped w) (w_cells w) (w_mats w) (w_rescaled w) (w_bcs w)
                           (w_skip_comp w) (w_skip_geomcomp w) (w_skip_bc w)))
   end.
 
@@ -533,6 +565,7 @@ Definition print_outcome (o : outcome) : list string :=
   | Complete f => print_file f
   | Died false _ _ => []
   | Died true sl _ => geometry_head ++ flat_map print_surf sl
+  | Raised f _ => print_file f
   end.
 
 Definition print_text (o : outcome) : string :=
